@@ -188,6 +188,7 @@ func cmdCheck(args []string) int {
 		eng.curProp = *prop
 		results = append(results, eng.VerifyFunction(k))
 	}
+	eng.crossCheck = *tier == "thorough"
 	eng.Discharge(results, timeout, 12)
 
 	lock, _ := readLock(*prop)
@@ -611,7 +612,19 @@ func writeEvidence(path, prop, tier string, seed int, results []*FnResult, repor
 		solverSecs[k] = map[string]interface{}{"queries_decided": v.N, "seconds": v.S}
 	}
 	solverStatsMu.Unlock()
+	cross := map[string]int{}
+	disagreements := []string{}
+	for _, rep := range reports {
+		if rep.Ob.Second != "" {
+			st := rep.Ob.Second[strings.Index(rep.Ob.Second, ":")+1:]
+			cross[st]++
+			if st == "sat" {
+				disagreements = append(disagreements, rep.Full+" ("+rep.Ob.Second+")")
+			}
+		}
+	}
 	cov := map[string]interface{}{
+		"second_solver_on_discharged": map[string]interface{}{"answers": cross, "disagreements": disagreements},
 		"obligations":              nOb,
 		"discharged":               nDis,
 		"checker_cmd":              fmt.Sprintf("/verif/bin/govc check --property %s --tier %s", prop, tier),
